@@ -43,6 +43,8 @@ type c19Input struct {
 	APIKey      string     `json:"api_key"`
 	Dataset     string     `json:"dataset"`
 	Events      []c19Event `json:"events"`
+	Deliv       string     `json:"deliv,omitempty"` // delivery scenario on the real DirectTransmission instead of a request
+	DelivSeed   int64      `json:"deliv_seed,omitempty"`
 }
 
 func init() {
@@ -50,6 +52,9 @@ func init() {
 }
 
 func c19Gen(r *rand.Rand, tier string, i int) any {
+	if k := r2DelivSchedule(i); k != "" {
+		return c19Input{Path: "batch-msgp", Deliv: k, DelivSeed: r.Int63n(1 << 30)}
+	}
 	in := c19Input{Path: []string{"batch-msgp", "batch-msgp", "batch-json", "event-json", "event-msgp"}[r.Intn(5)],
 		Incoming: r.Intn(3) > 0, PeerTrace: []string{"peer-trace-1", "peer-trace-2"},
 		APIKey:  c20Pick(r, []string{"0123456789abcdef0123456789abcdef", "hcaik_01hqk4k20cjeh63wca8vva5stw70nft6m5n8wr8f5mjx3762s8269j50wc", "shortkey"}),
@@ -167,6 +172,16 @@ func c19Run(raw json.RawMessage) (Case, error) {
 	var in c19Input
 	if err := json.Unmarshal(raw, &in); err != nil {
 		return Case{}, err
+	}
+	if in.Deliv != "" {
+		res, err := r2DelivRun(in.Deliv, in.DelivSeed)
+		if err != nil {
+			return Case{}, err
+		}
+		coq := fmt.Sprintf("{| c_path := PBatchMsgp; c_cfg := {| trace_names := []; parent_names := []; key_fields := [] |}; c_ua := \"\"; c_widen := []; "+
+			"c_incoming := true; c_stressed := false; c_processed := false; c_kept := false; c_full := false; c_remote := []; c_peer := \"\"; c_events := []; c_deliv := %s |}", r2DelivCoq(res))
+		return Case{Coq: coq, Key: string(raw), Nontriv: true, Tags: []string{"delivery:" + in.Deliv},
+			Summary: map[string]any{"delivery": in.Deliv, "events": len(res.Expected), "arrived": len(res.Arrived), "notes": res.Human}}, nil
 	}
 	env, err := r2NewEnv(r2Options{TraceNames: in.TraceNames, ParentNames: in.ParentNames, KeyFields: in.KeyFields,
 		Incoming: in.Incoming, PeerTraceIDs: in.PeerTrace, Stressed: in.Stressed, Processed: in.Processed, Kept: in.Kept, Full: in.Full})
@@ -337,7 +352,7 @@ func c19Run(raw json.RawMessage) (Case, error) {
 	}
 	sort.Strings(tags)
 	coq := fmt.Sprintf("{| c_path := %s; c_cfg := {| trace_names := %s; parent_names := %s; key_fields := %s |}; c_ua := %s; c_widen := %s; "+
-		"c_incoming := %s; c_stressed := %s; c_processed := %s; c_kept := %s; c_full := %s; c_remote := %s; c_peer := %s; c_events := %s |}",
+		"c_incoming := %s; c_stressed := %s; c_processed := %s; c_kept := %s; c_full := %s; c_remote := %s; c_peer := %s; c_events := %s; c_deliv := [] |}",
 		c20PathCoq(in.Path), cq.ListStr(in.TraceNames), cq.ListStr(in.ParentNames), cq.ListStr(keyFields), cq.Str(in.UA), mpWidenCoq(widen),
 		cq.Bool(in.Incoming), cq.Bool(in.Stressed), cq.Bool(in.Processed), cq.Bool(in.Kept), cq.Bool(in.Full),
 		cq.ListStr(in.PeerTrace), cq.Str(env.PeerURL), cq.List(evs))
